@@ -6,6 +6,7 @@ import (
 	"flag"
 	"fmt"
 	"os"
+	"runtime/pprof"
 	"syscall"
 
 	"verif/sim/scen"
@@ -106,6 +107,12 @@ func main() {
 		sc = scen.Generate(*prop, *family, *seed, *tier)
 	}
 
+	if pf := os.Getenv("WORKER_CPUPROFILE"); pf != "" {
+		if f, err := os.Create(pf); err == nil {
+			pprof.StartCPUProfile(f)
+			defer pprof.StopCPUProfile()
+		}
+	}
 	o := simrt.Run(scen.KernelConfig(sc, tape, useTape, *trace), scen.Driver(sc, *trace))
 	rep := Report{Scenario: sc, Status: o.Status, PanicText: o.PanicText, PanicTask: o.PanicTask, Deadlock: o.Deadlock,
 		Steps: o.Steps, Switches: o.Switches, VirtualNS: o.VirtualNS, TraceHash: fmt.Sprintf("%016x", o.TraceHash),
@@ -125,5 +132,6 @@ func main() {
 	}
 	enc := json.NewEncoder(out)
 	enc.Encode(rep)
+	pprof.StopCPUProfile()
 	os.Exit(0)
 }
